@@ -115,9 +115,27 @@ pub fn c08_native<G: AffineRepr + 'static>(seed: u64, maxlen: usize) -> Checks {
                             }
                         }
                     }
-                    // through the decoder as well
+                    // through the decoders as well (from_bytes and the derived trait decoder); whatever decodes is verified
                     if let Ok(bytes) = hostile.to_bytes() {
                         total += 1;
+                        let r4 = catch(|| {
+                            if let Ok(p) = R1CSProof::<G>::deserialize_compressed(&bytes[..]) {
+                                rewind_for_verifier(&shr);
+                                let mut vt = new_verifier_transcript(&shape);
+                                let _ = build_verifier(&shape, &shr, &mut vt).verify(&p, &pc, &bp);
+                                rewind_for_verifier(&shr);
+                                let mut vt = new_verifier_transcript(&shape);
+                                let v = build_verifier(&shape, &shr, &mut vt);
+                                let mut wr = rand_chacha::ChaChaRng::seed_from_u64(seed);
+                                let _ = batch_verify(&mut wr, vec![(v, &p)], &pc, &bp);
+                            }
+                        });
+                        if let Err(e) = r4 {
+                            bad += 1;
+                            if first.is_empty() {
+                                first = format!("a hostile proof decoded through the trait decoder panicked in verification (|L|={}, |R|={}): {}", nl, nr, e);
+                            }
+                        }
                         let r3 = catch(|| R1CSProof::<G>::from_bytes(&bytes).is_ok());
                         if r3.is_err() {
                             bad += 1;
@@ -445,6 +463,18 @@ pub fn c11_native<G: AffineRepr + 'static>(seed: u64, small_order: Option<Vec<G>
                 out.push((format!("{}: decoded proof gets the same verdict", shape.name), build_verifier(shape, &shr, &mut vt).verify(&p2, &pc, &bp).is_ok()));
             }
             Err(_) => out.push((format!("{}: own encoding decodes", shape.name), false)),
+        }
+        // the derived (trait) encoders / decoders are a second door to the same format
+        {
+            let mut tb = vec![];
+            proof.serialize_compressed(&mut tb).unwrap();
+            let via_trait = R1CSProof::<G>::deserialize_compressed(&bytes[..]).ok().and_then(|p| p.to_bytes().ok());
+            let mut ub = vec![];
+            proof.serialize_uncompressed(&mut ub).unwrap();
+            let unc = R1CSProof::<G>::deserialize_uncompressed(&ub[..]).ok().and_then(|p| p.to_bytes().ok());
+            out.push((format!("{}: serialize_compressed = to_bytes, deserialize_compressed and the uncompressed round trip give the same proof", shape.name), tb == bytes && via_trait.as_ref() == Some(&bytes) && unc.as_ref() == Some(&bytes) && proof.serialized_size(ark_serialize::Compress::Yes) == bytes.len()));
+            let bad_trait_prefix = (0..bytes.len()).filter(|c| R1CSProof::<G>::deserialize_compressed(&bytes[..*c]).is_ok()).count();
+            out.push((format!("{}: every strict prefix is rejected by the trait decoder too", shape.name), bad_trait_prefix == 0));
         }
         let bad_prefix = (0..bytes.len()).filter(|c| !matches!(R1CSProof::<G>::from_bytes(&bytes[..*c]), Err(R1CSError::FormatError))).count();
         out.push((format!("{}: every strict prefix ({}) is rejected with FormatError", shape.name, bytes.len()), bad_prefix == 0));
